@@ -212,7 +212,8 @@ def keyword_shadowing(check: Check, repo: Repo, rules: dict, consts: dict) -> No
             check.count("shadow_checks")
 
 
-def escape_tables(check: Check, repo: Repo, rules: dict) -> None:
+def escape_tables(check: Check, repo: Repo, rules: dict, rule: str = "ESCAPE-TABLE", only: str | None = None) -> None:
+    """``only``: report just the categories containing this text (C11 takes the totality part, under its own rule name)."""
     # meta: escape = "\\" ~ ( "\"" | "\\" | "r" | "n" | "t" | "0" | "'" | code | unicode )
     e = rules["escape"][1]
     if not (e[0] == "seq" and e[1][0] == ("str", "\\") and e[1][1][0] == "choice"):
@@ -281,14 +282,16 @@ def escape_tables(check: Check, repo: Repo, rules: dict) -> None:
 
     construct = f"{UNESCAPE}::unescape_string"
     n, bad = check_decoder(repo, construct, lo, hi, hexdigits)
+    if only is not None:
+        bad = [(c, m) for c, m in bad if only in c]
     check.count("decoder_model_texts", n)
-    check.oblige("ESCAPE-TABLE", construct, f"\\x takes two and \\u{{}} {lo} to {hi} digits of meta.pest's hex_digit set, with their base-16 values ({n} model texts)" if not bad else f"{len(bad)} of {n} model texts are decoded wrongly (per category below)", True, sample=True)
+    check.oblige(rule, construct, f"\\x takes two and \\u{{}} {lo} to {hi} digits of meta.pest's hex_digit set, with their base-16 values ({n} model texts)" if not bad else f"{len(bad)} of {n} model texts are decoded wrongly (per category below)", True, sample=True)
     cats: dict[str, list[str]] = {}
     for cat, msg in bad:
         cats.setdefault(cat, []).append(msg)
     for cat, msgs in sorted(cats.items()):
         sig = f"unescape_string: {cat}"
-        check.oblige("ESCAPE-TABLE", construct, sig, False, sample=True, finding=Finding("ESCAPE-TABLE", construct, sig, f"{sig}: e.g. {msgs[0]} ({len(msgs)} of {n} model texts)", {"witness": msgs[0]}))
+        check.oblige(rule, construct, sig, False, sample=True, finding=Finding(rule, construct, sig, f"{sig}: e.g. {msgs[0]} ({len(msgs)} of {n} model texts)", {"witness": msgs[0]}))
 
 
 def emitted_kinds(fn: ast.FunctionDef) -> set[str]:
